@@ -143,6 +143,20 @@ theorem contains_delIfPresent_other (h : Headers) (n m : Str) (c : contains h m 
   · rename_i h' e; exact contains_delItem_other _ _ _ _ e c
   · exact c
 
+theorem contains_setItem_other (h : Headers) (n v m : Str) (hne : normalize n ≠ normalize m)
+    (c : contains h m = false) : contains (setItem h n v) m = false := by
+  have c' : normalize m ∉ keys h.asList := by rw [← dhas_iff]; simpa [contains] using c
+  have : normalize m ∉ keys (dset (normalize n) [v] h.asList) := by
+    rw [keys_dset]
+    split
+    · exact c'
+    · intro hm
+      rcases List.mem_append.1 hm with hm | hm
+      · exact c' hm
+      · simp at hm; exact hne hm.symm
+  rw [← dhas_iff] at this
+  simpa [contains, setItem] using this
+
 theorem getList_of_not_contains (h : Headers) (n : Str) (c : contains h n = false) : getList h n = [] := by
   unfold getList
   unfold contains dhas at c
